@@ -12,6 +12,7 @@ import Mathlib.Tactic.FinCases
 import ClarabelProofs.Props.C09
 import ClarabelProofs.Props.C16
 import Mathlib.Analysis.SpecialFunctions.Exp
+import ClarabelProofs.Props.C05Full
 
 namespace Clarabel.C05
 open Clarabel Clarabel.Step Clarabel.Lemmas Matrix
